@@ -16,6 +16,15 @@ CHECKS = {
     "C16": (True, "bounded exhaustive enumeration of all typed DAGs + explicit-state BFS over edit histories, on the implementation, vs reference reachability",
             "Every DAG with <=5 (thorough <=6) nodes x every source/sink typing (inputs, constants, blackbox pins) x every output subset x both flag values, and a BFS over remove_unloaded/disconnect/remove/set_output histories (depth 2, thorough 3) from all 4-node seeds; deletion set, return value, survivor attributes and idempotence compared with an independent liveness oracle in every case.",
             TRUST, "4/C16"),
+    "C12": (True, "bounded exhaustive enumeration of all DAGs / digraphs x all argument subsets, on the implementation, vs reference graph algorithms",
+            "Every DAG with <=5 (thorough <=6) nodes under three typings (plain, constants, blackbox pins) queried with every node and every non-empty node subset for fanin/fanout/transitive_*/startpoints/endpoints/depths, plus levelize, topo_sort, reconvergent_fanout_nodes, kcuts k=1..4; every loop-free digraph on <=4 nodes for is_cyclic and the depth functions' rejection. Oracle: refgraph (closure, longest path) without networkx.",
+            TRUST, "4/C12"),
+    "C13": (True, "exhaustive enumeration of all input vectors per width (bit-parallel) and of helper argument ranges, on the implementation, vs integer arithmetic",
+            "adder w<=6 (thorough 8) x 4 carry options, mux w<=9 (12), popcount w<=12 (15), half/full adder: ALL input vectors; widths 16..64 on complete structured vector families; clog2 on 1..4096 (65536) and 2^k, 2^k+-1 to k=64; int_to_bin/bin_to_int for all i<2^w, w<=10 (13), both endiannesses; lint on every block.",
+            TRUST + " Large widths (16..64) are covered on a stated finite family of vectors, not all 2^2w.", "4/C13"),
+    "C20": (True, "bounded exhaustive enumeration of all attributed graphs x all flag sets, on the implementation, vs an independent three-valued implementation of the documented rules",
+            "Every graph with <=2 nodes (thorough: 3 nodes over representative types) x 16 type choices incl. unsupported/missing x every edge set with self-loops x output marks x dotted names x 4 registries x all 16 flag combinations: lint must raise ValueError exactly when a documented rule is violated; plus lint on the output of every generator / parser / composition / transform over the (I<=2,G<=2) corpus.",
+            TRUST, "4/C20"),
 }
 
 NOT_YET = "check not built yet in this session (planned in DESIGN.md section 4); not claimed until its machinery exists"
